@@ -177,13 +177,13 @@ def run_dir():
 
 
 def drive(text):
-    """scenarioFromString(text); execution may fail in any way.  -> (outcome, seconds, dirty)"""
+    """scenarioFromString(text); execution may fail in any way.  -> (outcome, CPU seconds, dirty)"""
     import scenic
 
     pre = veneer_dirty()
     if pre:
         veneer_reset()
-    t0 = time.time()
+    t0 = time.process_time()
     outcome = "ok"
     cwd = os.getcwd()
     try:
@@ -199,7 +199,7 @@ def drive(text):
     dirty = veneer_dirty()
     if dirty:
         veneer_reset()
-    return outcome, time.time() - t0, dirty
+    return outcome, time.process_time() - t0, dirty
 
 
 # --- work items ---------------------------------------------------------------------------------
